@@ -170,9 +170,11 @@ Fixpoint dec_tagged_loop (P : Z) (d : rdec) (ngroups : nat) (nc : nat) (st : rst
     dec_tagged_loop P d k nc st' bits' acc'
   end.
 
-(** DecodeTaggedSymbols<RAnsSymbolDecoder>.  The loop runs ceil(num_values / num_components) times and writes
-    num_components values each time (callers always pass a multiple). *)
+(** DecodeTaggedSymbols<RAnsSymbolDecoder>.  Since commit 6105d6f it starts with
+    `if (num_components <= 0 || num_values % num_components != 0) return false;` (before anything is read), so the
+    loop, which stores num_components values per round, stores exactly num_values values. *)
 Definition dec_tagged (ver : Z) (n nc : nat) (pre : list Z) (bs : bytes) : dres (list Z * bytes) :=
+  if (nc =? 0)%nat || negb (n mod nc =? 0)%nat then Fail else
   let P := rans_precision_bits 5 in
   dlet (d, r) <- rans_dec_create ver P bs;
   dlet (st, r') <- rans_start_decoding ver P (consumed_rev bs r pre) r;
@@ -194,8 +196,7 @@ Definition dec_raw (ver : Z) (n : nat) (pre : list Z) (bs : bytes) : dres (list 
   end.
 
 (** DecodeSymbols(num_values, num_components, buffer, out) on a buffer of bitstream version [ver]; [pre]: the
-    bytes in front of the block (nearest first; only ever looked at by RAnsDecoder::read_init, see there).
-    num_components >= 1 is a precondition (0 makes the C++ tagged loop spin forever). *)
+    bytes in front of the block (nearest first; carried along for RAnsDecoder::read_init, which ignores them). *)
 Definition dec_symbols (ver : Z) (n nc : nat) (pre : list Z) (bs : bytes) : dres (list Z * bytes) :=
   match n with
   | O => Ok ([], bs)
